@@ -540,6 +540,70 @@ var rulePools = &core.Rule{ID: "R04.3", Min: 6,
 				s.Check(after == "", key, c.Pos(put.Pos()), "no later use ("+how+")", "the value is still used (at "+after+") after it was put back into the pool: another goroutine can take and reset it in between (data race, results of another detection)")
 			}
 		}
+		// a function literal that puts a captured variable back: called on the spot (not deferred) it releases the
+		// value in the middle of the enclosing function, and every later read of that variable uses a released object
+		for _, f := range c.SrcFuncs() {
+			for _, ci := range core.Calls(f) {
+				call, isCall := ci.(*ssa.Call)
+				if !isCall {
+					continue
+				}
+				mc, ok := call.Call.Value.(*ssa.MakeClosure)
+				if !ok {
+					continue
+				}
+				lit, _ := mc.Fn.(*ssa.Function)
+				if lit == nil || lit.Blocks == nil {
+					continue
+				}
+				for fi, fv := range lit.FreeVars {
+					puts := false
+					for _, pc := range core.Calls(lit) {
+						if !core.MethodCalleeIs(pc.Common(), "sync", "Pool", "Put") || len(pc.Common().Args) < 2 {
+							continue
+						}
+						mi, ok := pc.Common().Args[1].(*ssa.MakeInterface)
+						if !ok {
+							continue
+						}
+						if mi.X == ssa.Value(fv) {
+							puts = true
+						}
+						if ld, ok := mi.X.(*ssa.UnOp); ok && ld.Op == token.MUL && ld.X == ssa.Value(fv) {
+							puts = true
+						}
+					}
+					if !puts || fi >= len(mc.Bindings) {
+						continue
+					}
+					cell := mc.Bindings[fi]
+					after := ""
+					reach := core.Reach(call.Block())
+					if refs := cell.Referrers(); refs != nil {
+						for _, u := range *refs {
+							if u == ssa.Instruction(mc) || u.Parent() != f {
+								continue
+							}
+							switch u.(type) {
+							case *ssa.DebugRef, *ssa.Store:
+								continue
+							}
+							later := false
+							if u.Block() == call.Block() {
+								later = core.InstrIndex(u) > core.InstrIndex(call)
+							} else if reach[u.Block()] {
+								later = true
+							}
+							if later {
+								after = c.Pos(u.Pos())
+							}
+						}
+					}
+					key := fmt.Sprintf("%s: %s releases a captured pooled value as the last use", core.FName(f), callOrdinal(call))
+					s.Check(after == "", key, c.Pos(call.Pos()), "no later use of the captured variable", "a function literal that puts the captured value back into the pool is called on the spot (not deferred) and the variable is still used afterwards (at "+after+"): another goroutine can take and reset the object in between (data race, results of another detection)")
+				}
+			}
+		}
 		// a function does not hand out what it puts back: a value given to Put (also by defer, which runs when the
 		// function returns) must not be returned, nor be wrapped by a call whose result is returned
 		for _, f := range c.SrcFuncs() {
